@@ -129,19 +129,29 @@ def handle (op : String) (req : Json) : R Json := do
     let binJS : Except Err (Image Json) := if cpsOn then cpsS.map (mapImage jRat) else binS.map (mapImage jInt)
     let loadM := load binJM (csvM.map (mapImage jRat))
     let loadS := load binJS (csvS.map (mapImage jRat))
-    -- binary-vs-CSV agreement (counts per second, to the printed precision)
+    -- binary-vs-CSV agreement: "the CSV text was printed from the recorded counts per second", decided on the
+    -- exact values with `printSlack` (the hypothesis of `agree_of_printed` / `agree_transfer`)
     let decimals ← getNat req "decimals"
-    let tol : Rat := 1 / (2 * (10 ^ decimals : Nat) : Rat)
+    let tol : Rat := halfUnit decimals
+    let presentOf (spc : Bool) : Option (List Bool) :=
+      match linesOf m spc methods with
+      | .ok lines => some (lines.map (fun n => ((findFile filesT n).bind (·.csv)).isSome))
+      | .error _ => none
     let agreeOf (spc : Bool) (bin : Except Err (Image Rat)) (tbl : List MassInfo) (csvI : Except Err (Image Rat)) : Json :=
-      match linesOf m spc methods, bin, csvI with
-      | .ok lines, .ok b, .ok c =>
-        if rv then
-          let present := lines.map (fun n => ((findFile filesT n).bind (·.csv)).isSome)
-          jBool (agree tol present (cps tbl b) c)
-        else Json.null
+      match presentOf spc, bin, csvI with
+      | some present, .ok b, .ok c =>
+        if rv then jBool (agree tol printSlack present (cps tbl b) c) else Json.null
       | _, _, _ => Json.null
     let agM := agreeOf false (loadBinary m filesR mi methods) (mi.getD []) csvM
     let agS := agreeOf true (loadBinarySpec m filesR miSpec methods) miSpec csvS
+    -- hypotheses of the pixel theorems that the generator varies
+    let k := xs.length
+    let r0 := (filesT.head?.map (·.scans.length)).getD 0
+    let hypIdx := match xadd with
+      | none => true
+      | some (_, rows) => rows.all (fun a => decide (1 ≤ a.index ∧ a.index ≤ k))      -- hypothesis of `massInfo_spec`
+    let hypLayout := hypIdx && filesT.all (fun f => layoutB k f.scans f.profile && f.scans.length == r0)
+    let hypCsv := csvShapeB filesT
     -- method file vs log
     let acqEq : Json := match xml, samples with
       | some l, some s => jBool (acqLogHyp l (sortByInt sampleKey s))
@@ -154,8 +164,25 @@ def handle (op : String) (req : Json) : R Json := do
       ("cps", jObj [("model", jNull rv (jImage jRat stModel cpsM)), ("spec", jNull rv (jImage jRat stSpec cpsS))]),
       ("csv", jObj [("model", jImage jRat stModel csvM), ("spec", jImage jRat stSpec csvS)]),
       ("load", jObj [("model", jImage id stModel loadM), ("spec", jImage id stSpec loadS)]),
-      ("agree", jObj [("model", agM), ("spec", agS)]),
+      ("agree", jObj [("model", agM), ("spec", agS),
+        ("present", match presentOf true with | some p => jList jBool p | none => Json.null)]),
+      ("hyp", jObj [("layout", jBool hypLayout), ("csv_shape", jBool hypCsv)]),
       ("acq_eq_log", acqEq)])
+  | "c02.agree" =>
+    -- the Lean verdict `agree … agreeSlack` on two images handed over as exact rationals of the float64 values
+    -- (`null` = a non-finite value: no agreement)
+    let decimals ← getNat req "decimals"
+    let present ← getList asBool req "present"
+    let getImg (key : String) : R (Option (List (List (List Rat)))) := do
+      let raw ← getList (asList (asList (asOpt asRat))) req key
+      pure (allSome (raw.map (fun line => allSome (line.map allSome))))
+    let b ← getImg "bin"
+    let c ← getImg "csv"
+    match b, c with
+    | some bi, some ci =>
+      pure (jObj [("agree", jBool (agree (halfUnit decimals) agreeSlack present
+        { names := [], img := bi, times := [] } { names := [], img := ci, times := [] }))])
+    | _, _ => pure (jObj [("agree", jBool false)])
   | _ => throw s!"unknown op {op}"
 
 end PewDriver.C02
